@@ -44,6 +44,15 @@ func (k *kStruct) Shout() string {
 func (k kStruct) Greet(s string) string  { return "hi " + s }
 func (k kStruct) String2() template.HTML { return "<b>" }
 
+type kInner struct{ Inner string }
+
+// kEmb promotes the fields of a nil embedded pointer
+type kEmb struct {
+	*kInner
+	Name string
+	Fn   func() string
+}
+
 type kStringer struct{ s string }
 
 func (k kStringer) String() string { return k.s }
@@ -140,6 +149,36 @@ func kindValue(kind string) (interface{}, bool) {
 		}, true
 	case "iter":
 		return &listIter{xs: []interface{}{1, 2}}, true
+	case "ptr_map":
+		m := map[string]int{"k": 1}
+		return &m, true
+	case "nilptr_map":
+		return (*map[string]int)(nil), true
+	case "ptr_array":
+		a := [2]int{1, 2}
+		return &a, true
+	case "ptr_str":
+		s := "ps"
+		return &s, true
+	case "ptr_int":
+		i := 7
+		return &i, true
+	case "nil_func":
+		return (func() string)(nil), true
+	case "func_returns_nilfunc":
+		return func() func() string { return nil }, true
+	case "nilptr_time":
+		return (*time.Time)(nil), true
+	case "ptr_time":
+		t := time.Date(2020, 1, 2, 3, 4, 5, 0, time.UTC)
+		return &t, true
+	case "struct_embedded_nil":
+		return kEmb{Name: "emb"}, true
+	case "slice_stringer":
+		return []fmt.Stringer{}, true
+	case "slice_ptr_struct":
+		s := mk()
+		return []*kStruct{&s, nil}, true
 	}
 	panic("harness: no Go value for kind " + kind)
 }
